@@ -878,8 +878,11 @@ var exprSuffixRe = regexp.MustCompile(` \(expr: .*\)$`)
 
 // normMsg is a panic or error message without what varies with the input: numbers, the expression quoted at its end.
 func normMsg(m string) string {
+	m = isNodeRe.ReplaceAllString(m, "is *ast.#, not") // the node met varies, the node expected names the place
 	return digitsRe.ReplaceAllString(exprSuffixRe.ReplaceAllString(m, ""), "#")
 }
+
+var isNodeRe = regexp.MustCompile(`is \*ast\.[A-Za-z]+, not`)
 
 var pkgClauseRe = regexp.MustCompile(`^[ \t\n]*package[ \t]+[A-Za-z_][A-Za-z0-9_]*`)
 
